@@ -749,6 +749,18 @@ def run_case(case, ctx):
                                          "range contains the first one's")
                         w2["second_track_ms"] = tms2
                         return fail(w2)
+    if mode in ("T-list", "T-track"):
+        # aliasing: the list of instants / the reference track belongs to the caller, who goes on using it (shifts
+        # its instants for the next request, moves the reference track); the track resampled earlier must not follow
+        before_ = _read(work)
+        M.scribble(call_arg)
+        after_ = _read(work)
+        ctx.monitor("temporal.result_independent_of_the_callers_instants")
+        if M.is_raised(before_) or M.is_raised(after_) or before_ != after_:
+            return fail({"what": "the resampled track changed when the caller modified, afterwards and in place, the "
+                                 "instants (list of timestamps / reference track) it had passed",
+                         "stamps_before": None if M.is_raised(before_) else [t - tms[0] for t in before_[3]][:12],
+                         "stamps_after": None if M.is_raised(after_) else [t - tms[0] for t in after_[3]][:12]})
     return held(sig, len(tms) >= 3 and interior, sorted(cls))
 
 
@@ -761,7 +773,8 @@ def classify(case, witness):
 # floors for the call-history workloads added in session 3 (a run in which they were silently skipped is inconclusive)
 _floors_base = floors
 _FLOORS_EXTRA = {'counters': {'numeric_step_lands_exactly_on_last': 50},
-                 'monitors': {'temporal.same_reference_second_track': 1000, 'sample.single_instant': 1000},
+                 'monitors': {'temporal.same_reference_second_track': 1000, 'sample.single_instant': 1000,
+                              'temporal.result_independent_of_the_callers_instants': 5000},
                  'classes': {'floordiv_operator': 300, 'step_given_as_numpy_scalar': 500,
                              'scale_hundreds_of_fixes_and_instants': 30}}
 
